@@ -137,7 +137,8 @@ Proof.
   intros Ho H. assert (H' : In x (new_rows s [] (sort_fields s (create_fields s
             (select_and_omit s table selects omits true false) ps)) ps 1001)).
   { destruct Ho as [->| ->]; cbn [run_op] in H; (destruct ps as [|p0 ps0]; [contradiction|]);
-      destruct (default_placeholder_error _ (p0 :: ps0)); try contradiction; exact H. }
+      destruct (default_placeholder_error _ (p0 :: ps0)); try contradiction;
+      destruct (existsb f_pk _ && _); try contradiction; exact H. }
   destruct (new_rows_in _ _ _ _ _ H') as (f & Hf & C & R). split; [lia|].
   apply sort_fields_sub in Hf.
   - destruct (create_fields_creatable s table Hwf selects omits _ f Hf) as (A & B & D). exists f. auto.
